@@ -14,6 +14,7 @@ Emitted tables
 """
 import ast
 import os
+import re
 
 from extract_facts import Unsupported, parse, class_node, zs
 
@@ -31,79 +32,110 @@ def zsl(names):
 
 
 # ------------------------------------------------------------------------------------------------
-# events.py
+# the hook methods: facts about VALUES, read from the imported package (in a subprocess, so that the
+# package under examination never enters this process), not from the spelling of events.py:
+#   * the dispatch object is what `listen()` uses: <Channel|Server instance>.__dispatch__
+#   * its hooks are its class's __dispatch_methods__ (event class -> method name)
+#   * positional / keyword-only parameters from inspect.signature
+#   * which parameter ends up in which event field: observed by calling the hook with one sentinel
+#     per parameter while a probing listener is registered and reading every slot of the event
 
-def dispatch_classes(tree):
-    """classes deriving (transitively) from _Dispatch, in source order: (name, bases, node)"""
-    known = {'_Dispatch'}
-    out = []
-    for n in tree.body:
-        if isinstance(n, ast.ClassDef):
-            bases = [ast.unparse(b) for b in n.bases]
-            if any(b in known for b in bases):
-                if not all(b in known for b in bases):
-                    raise Unsupported('dispatch class %s mixes foreign bases %r' % (n.name, bases))
-                known.add(n.name)
-                out.append((n.name, bases, n))
-    if not out:
-        raise Unsupported('no _Dispatch subclasses')
-    return out
+PROBE = r"""
+import asyncio, inspect, json, sys
+from grpclib import events
+from grpclib.client import Channel
+from grpclib.server import Server
+
+def drive(coro):
+    try:
+        coro.send(None)
+    except StopIteration as e:
+        return e.value
+    coro.close()
+    raise RuntimeError('hook suspended')
+
+loop = asyncio.new_event_loop()
+asyncio.set_event_loop(loop)
+out = {'targets': [], 'hooks': []}
+for fname, cls, make in (('client.py', 'Channel', lambda: Channel()), ('server.py', 'Server', lambda: Server([]))):
+    target = make()
+    d = target.__dispatch__
+    dcls = type(d).__name__
+    out['targets'].append([fname, cls, dcls])
+    out.setdefault('mro', []).extend(c.__name__ for c in type(d).__mro__[:-1])
+    table = type(d).__dispatch_methods__
+    if not isinstance(table, dict) or not table:
+        raise RuntimeError('no __dispatch_methods__')
+    for ev, meth in table.items():
+        fn = getattr(type(d), meth)
+        if not inspect.iscoroutinefunction(fn):
+            raise RuntimeError('%s.%s is not a coroutine function' % (dcls, meth))
+        sig = inspect.signature(fn)
+        pos, kw = [], []
+        for prm in list(sig.parameters.values())[1:]:
+            if prm.default is not prm.empty:
+                raise RuntimeError('%s.%s: default value' % (dcls, meth))
+            if prm.kind == prm.POSITIONAL_OR_KEYWORD:
+                pos.append(prm.name)
+            elif prm.kind == prm.KEYWORD_ONLY:
+                kw.append(prm.name)
+            else:
+                raise RuntimeError('%s.%s: parameter kind of %s' % (dcls, meth, prm.name))
+        sent = {n: object() for n in pos + kw}
+        seen = {}
+
+        async def probe(event, seen=seen):
+            seen['cls'] = type(event).__name__
+            for slot in type(event).__slots__:
+                seen.setdefault('slots', []).append([slot, getattr(event, slot)])
+        events.listen(target, ev, probe)
+        ret = drive(getattr(d, meth)(*[sent[n] for n in pos], **{n: sent[n] for n in kw}))
+        if seen.get('cls') != ev.__name__:
+            raise RuntimeError('%s.%s does not dispatch %s' % (dcls, meth, ev.__name__))
+        ctor = []
+        for slot, val in seen['slots']:
+            who = [n for n, o in sent.items() if o is val]
+            if len(who) != 1:
+                raise RuntimeError('%s.%s: field %s does not hold exactly one parameter' % (dcls, meth, slot))
+            ctor.append([slot, who[0]])
+        out['hooks'].append([dcls, meth, ev.__name__, pos, kw, ctor])
+loop.close()
+json.dump(out, sys.stdout)
+"""
 
 
-def hook_method(cls, fn):
-    if not isinstance(fn, ast.AsyncFunctionDef):
-        raise Unsupported('%s.%s: @_dispatches on a non-coroutine' % (cls, fn.name))
-    if len(fn.decorator_list) != 1:
-        raise Unsupported('%s.%s: decorators' % (cls, fn.name))
-    d = fn.decorator_list[0]
-    if not (isinstance(d, ast.Call) and isinstance(d.func, ast.Name) and d.func.id == '_dispatches'
-            and len(d.args) == 1 and isinstance(d.args[0], ast.Name) and not d.keywords):
-        raise Unsupported('%s.%s: decorator shape' % (cls, fn.name))
-    event = d.args[0].id
-    a = fn.args
-    if a.posonlyargs or a.vararg or a.kwarg or a.defaults or any(x is not None for x in a.kw_defaults):
-        raise Unsupported('%s.%s: signature' % (cls, fn.name))
-    if not a.args or a.args[0].arg != 'self':
-        raise Unsupported('%s.%s: self' % (cls, fn.name))
-    pos = [x.arg for x in a.args[1:]]
-    kwonly = [x.arg for x in a.kwonlyargs]
-    body = [s for s in fn.body if not (isinstance(s, ast.Expr) and isinstance(s.value, ast.Constant))]
-    if len(body) != 1 or not isinstance(body[0], ast.Return) or not isinstance(body[0].value, ast.Await):
-        raise Unsupported('%s.%s: body is not a single `return await ...`' % (cls, fn.name))
-    call = body[0].value.value
-    if not (isinstance(call, ast.Call) and ast.unparse(call.func) == 'self.__dispatch__'
-            and len(call.args) == 1 and not call.keywords):
-        raise Unsupported('%s.%s: not self.__dispatch__(<event>)' % (cls, fn.name))
-    ctor = call.args[0]
-    if not (isinstance(ctor, ast.Call) and isinstance(ctor.func, ast.Name) and not ctor.args):
-        raise Unsupported('%s.%s: event constructor shape' % (cls, fn.name))
-    if ctor.func.id != event:
-        raise Unsupported('%s.%s: dispatches %s but constructs %s' % (cls, fn.name, event, ctor.func.id))
-    kws = []
-    for k in ctor.keywords:
-        if k.arg is None or not isinstance(k.value, ast.Name):
-            raise Unsupported('%s.%s: constructor keyword' % (cls, fn.name))
-        kws.append((k.arg, k.value.id))
-    return (cls, fn.name, event, pos, kwonly, kws)
-
-
-def hooks_of(tree):
-    rows, bases = [], []
-    for name, bs, node in dispatch_classes(tree):
-        bases.append((name, bs))
-        for s in node.body:
-            if isinstance(s, (ast.FunctionDef, ast.AsyncFunctionDef)) and s.decorator_list:
-                if any('_dispatches' in ast.unparse(d) for d in s.decorator_list):
-                    rows.append(hook_method(name, s))
-                else:
-                    raise Unsupported('%s.%s: unknown decorator' % (name, s.name))
-            elif isinstance(s, (ast.FunctionDef, ast.AsyncFunctionDef)):
-                raise Unsupported('%s.%s: undecorated method in a dispatch class' % (name, s.name))
-    return bases, rows
+def hooks_by_value(repo):
+    import json
+    import subprocess
+    import sys
+    env = dict(os.environ, PYTHONPATH=repo, PYTHONHASHSEED='0', PYTHONDONTWRITEBYTECODE='1')
+    p = subprocess.run([sys.executable, '-W', 'ignore', '-c', PROBE], env=env, stdout=subprocess.PIPE,
+                       stderr=subprocess.PIPE, timeout=120, cwd=repo)
+    if p.returncode:
+        raise Unsupported('probing the hook methods failed: ' + p.stderr.decode('utf-8', 'replace')[-400:])
+    data = json.loads(p.stdout.decode())
+    hooks = [tuple([h[0], h[1], h[2], h[3], h[4], [tuple(x) for x in h[5]]]) for h in data['hooks']]
+    targets = [tuple(t) for t in data['targets']]
+    bases = []
+    for _, _, d in targets:
+        if (d, []) not in bases:
+            bases.append((d, []))
+    return bases, hooks, targets, sorted(set(data['mro']))
 
 
 # ------------------------------------------------------------------------------------------------
-# client.py / server.py
+# client.py / server.py: the hook call sites and what happens to their results.  This part is about
+# the data flow of the source, so it is read from the ast -- but by role, not by spelling:
+#   * the receiver of a hook call is any expression that holds the dispatch object: a parameter whose
+#     annotation names a dispatch class, an attribute such a parameter was stored in, a local alias
+#   * the result may be destructured at once, or bound to a temporary that is destructured / indexed
+#   * a bound name is followed through plain copies (`x = name`), and through the `return` of a private
+#     helper into the callers of that helper
+#   * consumers are named after what they ARE: the imported function (import aliases resolved), the
+#     public attribute stored into, `return`, `invoke`, or "@k" = the k-th name bound by the same site
+
+FOLLOW_DEPTH = 4
+
 
 def set_parents(tree):
     for p in ast.walk(tree):
@@ -118,11 +150,14 @@ def enclosing(node, kinds):
     return n
 
 
+FUNCS = (ast.FunctionDef, ast.AsyncFunctionDef)
+
+
 def qualname(fn):
     parts = [fn.name]
     n = getattr(fn, '_parent', None)
     while n is not None:
-        if isinstance(n, (ast.ClassDef, ast.FunctionDef, ast.AsyncFunctionDef)):
+        if isinstance(n, (ast.ClassDef,) + FUNCS):
             parts.append(n.name)
         n = getattr(n, '_parent', None)
     return '.'.join(reversed(parts))
@@ -132,8 +167,71 @@ def pos_of(n):
     return (n.lineno, n.col_offset)
 
 
-def consumer_tags(node):
-    """how the value read at `node` is consumed by the statement it occurs in"""
+def import_aliases(tree):
+    out = {}
+    for n in ast.walk(tree):
+        if isinstance(n, ast.ImportFrom):
+            for a in n.names:
+                if a.asname:
+                    out[a.asname] = a.name
+    return out
+
+
+def dispatch_exprs(tree, dispatch_classes):
+    """source text of the expressions that hold a dispatch object, per enclosing function (None = any)"""
+    holders = set()           # 'self.<attr>' spelled anywhere in a class
+    params = {}               # function node -> {parameter names}
+    for fn in ast.walk(tree):
+        if isinstance(fn, FUNCS):
+            for a in fn.args.args + fn.args.kwonlyargs:
+                if a.annotation is not None:
+                    words = set(re.findall(r'[A-Za-z_][A-Za-z0-9_]*', ast.unparse(a.annotation)))
+                    if words & set(dispatch_classes):
+                        params.setdefault(fn, set()).add(a.arg)
+                elif 'dispatch' in a.arg.lower():          # annotations stripped: fall back to the name
+                    params.setdefault(fn, set()).add(a.arg)
+    for fn, names in params.items():
+        for n in ast.walk(fn):
+            if isinstance(n, ast.Assign) and isinstance(n.value, ast.Name) and n.value.id in names:
+                for t in n.targets:
+                    if isinstance(t, ast.Attribute):
+                        holders.add(ast.unparse(t))
+    return holders, params
+
+
+def is_dispatch_receiver(expr, fn, holders, params, depth=0):
+    src = ast.unparse(expr)
+    if src in holders:
+        return True
+    f = fn
+    while f is not None:
+        if isinstance(expr, ast.Name) and expr.id in params.get(f, ()):
+            return True
+        f = enclosing(f, FUNCS)
+    if isinstance(expr, ast.Name) and depth < 3 and fn is not None:
+        # a local alias: every binding of the name in this function is a dispatch holder
+        binds = [n for n in ast.walk(fn) if isinstance(n, ast.Assign)
+                 and any(isinstance(t, ast.Name) and t.id == expr.id for t in n.targets)]
+        return bool(binds) and all(is_dispatch_receiver(b.value, fn, holders, params, depth + 1) for b in binds)
+    return False
+
+
+class Ctx:
+    def __init__(self, tree, rel):
+        self.tree, self.rel = tree, rel
+        self.aliases = import_aliases(tree)
+
+
+def func_label(ctx, f, site_targets):
+    if isinstance(f, ast.Name):
+        if f.id in site_targets:
+            return '@%d' % site_targets.index(f.id)
+        return ctx.aliases.get(f.id, f.id)
+    return ast.unparse(f)
+
+
+def consumer_tags(ctx, node, site_targets):
+    """how the value read at `node` is consumed by the statement it occurs in; also returns the statement"""
     tags = []
     child, n = node, node._parent
     while not isinstance(n, ast.stmt):
@@ -141,7 +239,7 @@ def consumer_tags(node):
             if child is n.func:
                 tags.append('invoke')
             else:
-                tags.append('call:' + ast.unparse(n.func))
+                tags.append('call:' + func_label(ctx, n.func, site_targets))
         child, n = n, n._parent
     if isinstance(n, ast.Return):
         tags.append('return')
@@ -150,13 +248,24 @@ def consumer_tags(node):
             tags.append('assign:' + ast.unparse(t))
     elif isinstance(n, (ast.AnnAssign, ast.AugAssign)) and child is n.value:
         tags.append('assign:' + ast.unparse(n.target))
-    return tags
+    return tags, n, child
 
 
-def later_uses(fn, stmt, target):
-    """reads of `target` (a Name, or an Attribute of a Name) in `fn` lexically after `stmt`, up to
-    the next re-binding of the name"""
-    end = (stmt.end_lineno, stmt.end_col_offset)
+def callers_of(ctx, fn):
+    """statements `T = await <x>.fn(...)` / `return await <x>.fn(...)` for a private helper fn"""
+    out = []
+    for call in ast.walk(ctx.tree):
+        if isinstance(call, ast.Call) and (
+                (isinstance(call.func, ast.Attribute) and call.func.attr == fn.name) or
+                (isinstance(call.func, ast.Name) and call.func.id == fn.name)):
+            node = call._parent if isinstance(call._parent, ast.Await) else call
+            out.append(node)
+    return out
+
+
+def uses_after(ctx, fn, after, target, site_targets, depth=0):
+    """reads of `target` (Name, or Attribute of a Name) in `fn` lexically after position `after`, up to
+    the next re-binding; plain copies and returns of private helpers are followed"""
     if isinstance(target, ast.Name):
         base, attr_src = target.id, None
     elif isinstance(target, ast.Attribute) and isinstance(target.value, ast.Name):
@@ -164,8 +273,36 @@ def later_uses(fn, stmt, target):
     else:
         raise Unsupported('hook result bound to ' + ast.unparse(target))
     names = sorted((n for n in ast.walk(fn) if isinstance(n, ast.Name) and n.id == base
-                    and pos_of(n) >= end), key=pos_of)
+                    and pos_of(n) >= after), key=pos_of)
     uses = []
+
+    def record(node):
+        tags, stmt, child = consumer_tags(ctx, node, site_targets)
+        uses.append(tags)
+        if depth >= FOLLOW_DEPTH:
+            return
+        # x = <name>   (a plain copy): what happens to x happens to the value
+        if isinstance(stmt, ast.Assign) and stmt.value is node and len(stmt.targets) == 1 and \
+                isinstance(stmt.targets[0], ast.Name):
+            uses.extend(uses_after(ctx, fn, (stmt.end_lineno, stmt.end_col_offset), stmt.targets[0],
+                                   site_targets, depth + 1))
+        # return <name> from a private helper: the callers' bindings carry the value on
+        if isinstance(stmt, ast.Return) and stmt.value is node and fn.name.startswith('_') and \
+                not fn.name.startswith('__'):
+            for c in callers_of(ctx, fn):
+                cfn = enclosing(c, FUNCS)
+                cst = c._parent
+                if cfn is None:
+                    continue
+                if isinstance(cst, ast.Return):
+                    uses.append(['return'])
+                elif isinstance(cst, ast.Assign) and cst.value is c and len(cst.targets) == 1 and \
+                        isinstance(cst.targets[0], (ast.Name, ast.Attribute)):
+                    t = cst.targets[0]
+                    uses.append(['assign:' + ast.unparse(t)])
+                    if isinstance(t, ast.Name) or isinstance(t.value, ast.Name):
+                        uses.extend(uses_after(ctx, cfn, (cst.end_lineno, cst.end_col_offset), t,
+                                               site_targets, depth + 1))
     for n in names:
         if isinstance(n.ctx, ast.Store):
             break
@@ -173,29 +310,73 @@ def later_uses(fn, stmt, target):
             continue
         par = n._parent
         if attr_src is None:
-            uses.append(consumer_tags(n))
+            record(n)
         elif isinstance(par, ast.Attribute) and par.value is n:
             if ast.unparse(par) == attr_src:
                 if isinstance(par.ctx, ast.Store):
                     break
-                uses.append(consumer_tags(par))
+                record(par)
             # another attribute of the same object: not a use of the bound one
         else:
-            uses.append(consumer_tags(n))      # the object itself escapes (e.g. passed to the handler)
+            record(n)      # the object itself escapes (e.g. it is handed to the handler)
     return uses
 
 
-def sites_of(tree, rel):
+def bound_targets(fn, stmt, await_node):
+    """(destructured, [target nodes], position after which the targets are live)"""
+    end = (stmt.end_lineno, stmt.end_col_offset)
+    if isinstance(stmt, ast.Expr) and stmt.value is await_node:
+        return False, [], end                                   # result dropped
+    if not (isinstance(stmt, ast.Assign) and len(stmt.targets) == 1):
+        raise Unsupported('hook result used in an unrecognised statement: ' + ast.unparse(stmt)[:80])
+    t = stmt.targets[0]
+    if stmt.value is await_node:
+        if isinstance(t, (ast.Tuple, ast.List)):
+            return True, list(t.elts), end
+        if isinstance(t, ast.Name):
+            # a temporary holding the tuple: `a, b = tmp` or tmp[0], tmp[1] ... afterwards
+            loads = sorted((n for n in ast.walk(fn) if isinstance(n, ast.Name) and n.id == t.id
+                            and isinstance(n.ctx, ast.Load) and pos_of(n) >= end), key=pos_of)
+            if len(loads) == 1:
+                st = loads[0]._parent
+                if isinstance(st, ast.Assign) and st.value is loads[0] and len(st.targets) == 1 and \
+                        isinstance(st.targets[0], (ast.Tuple, ast.List)):
+                    return True, list(st.targets[0].elts), (st.end_lineno, st.end_col_offset)
+            idx = {}
+            for n in loads:
+                sub = n._parent
+                if isinstance(sub, ast.Subscript) and sub.value is n and isinstance(sub.slice, ast.Constant) \
+                        and isinstance(sub.slice.value, int):
+                    idx.setdefault(sub.slice.value, []).append(sub)
+                else:
+                    return False, [t], end
+            if idx and sorted(idx) == list(range(len(idx))):
+                return True, [idx[k] for k in sorted(idx)], end     # lists of Subscript reads
+        return False, [t], end
+    # message = (await hook(message))[0]
+    v = stmt.value
+    if isinstance(v, ast.Subscript) and v.value is await_node and isinstance(v.slice, ast.Constant) \
+            and v.slice.value == 0 and isinstance(t, (ast.Name, ast.Attribute)):
+        return True, [t], end
+    raise Unsupported('hook result used in an unrecognised statement: ' + ast.unparse(stmt)[:80])
+
+
+def sites_of(tree, rel, hook_names, dispatch_classes):
     set_parents(tree)
+    ctx = Ctx(tree, rel)
+    holders, params = dispatch_exprs(tree, dispatch_classes)
+    if not holders and not params:
+        raise Unsupported('%s: nothing holds a dispatch object' % rel)
     rows = []
     for call in ast.walk(tree):
-        if not (isinstance(call, ast.Call) and isinstance(call.func, ast.Attribute)
-                and ast.unparse(call.func.value) in DISPATCH_EXPRS):
+        if not (isinstance(call, ast.Call) and isinstance(call.func, ast.Attribute)):
+            continue
+        fn = enclosing(call, FUNCS)
+        if not is_dispatch_receiver(call.func.value, fn, holders, params):
             continue
         hook = call.func.attr
-        if hook in ('add_listener',):
-            continue
-        fn = enclosing(call, (ast.FunctionDef, ast.AsyncFunctionDef))
+        if hook not in hook_names:
+            continue                       # add_listener and the like: not an event hook
         if fn is None:
             raise Unsupported('%s: hook call outside a function' % rel)
         if any(isinstance(a, ast.Starred) for a in call.args) or any(k.arg is None for k in call.keywords):
@@ -203,56 +384,50 @@ def sites_of(tree, rel):
         par = call._parent
         if not isinstance(par, ast.Await):
             raise Unsupported('%s:%d: hook %s is not awaited' % (rel, call.lineno, hook))
-        stmt = par._parent
-        destructured, targets = False, []
-        if isinstance(stmt, ast.Assign) and stmt.value is par and len(stmt.targets) == 1:
-            t = stmt.targets[0]
-            if isinstance(t, (ast.Tuple, ast.List)):
-                destructured = True
-                targets = list(t.elts)
+        node = par
+        stmt = node._parent
+        while not isinstance(stmt, ast.stmt):
+            stmt = stmt._parent
+        try:
+            destructured, targets, after = bound_targets(fn, stmt, par)
+        except Unsupported as e:
+            raise Unsupported('%s:%d: %s' % (rel, call.lineno, e))
+        names = [t.id if isinstance(t, ast.Name) else None for t in targets if not isinstance(t, list)]
+        trows = []
+        for k, t in enumerate(targets):
+            if isinstance(t, list):            # tmp[k] reads
+                uses = []
+                for sub in t:
+                    tags, st, _ = consumer_tags(ctx, sub, [])
+                    uses.append(tags)
+                    if isinstance(st, ast.Assign) and st.value is sub and len(st.targets) == 1 and \
+                            isinstance(st.targets[0], ast.Name):
+                        uses.extend(uses_after(ctx, fn, (st.end_lineno, st.end_col_offset), st.targets[0], []))
+                trows.append(('#%d' % k, uses))
             else:
-                targets = [t]
-        elif isinstance(stmt, ast.Expr) and stmt.value is par:
-            targets = []                      # result dropped: recorded, the Coq lemma refuses it
-        else:
-            raise Unsupported('%s:%d: hook result used in an unrecognised statement: %s'
-                              % (rel, call.lineno, ast.unparse(stmt)[:80]))
+                trows.append((ast.unparse(t), uses_after(ctx, fn, after, t, names)))
         rows.append({
             'file': rel, 'line': call.lineno, 'func': qualname(fn), 'hook': hook,
             'pos': [ast.unparse(a) for a in call.args],
             'kw': [k.arg for k in call.keywords],
             'destructured': destructured,
-            'targets': [(ast.unparse(t), later_uses(fn, stmt, t)) for t in targets],
+            'targets': trows,
         })
     rows.sort(key=lambda r: r['line'])
     return rows
 
 
-def dispatch_target(tree, rel, cls):
-    node = class_node(tree, cls)
-    found = []
-    for s in ast.walk(node):
-        if isinstance(s, ast.Assign) and any(ast.unparse(t) == 'self.__dispatch__' for t in s.targets):
-            v = s.value
-            if not (isinstance(v, ast.Call) and isinstance(v.func, ast.Name) and not v.args
-                    and not v.keywords):
-                raise Unsupported('%s: %s.__dispatch__ value' % (rel, cls))
-            found.append(v.func.id)
-    if len(found) != 1:
-        raise Unsupported('%s: %s assigns __dispatch__ %d times' % (rel, cls, len(found)))
-    return found[0]
-
-
 # ------------------------------------------------------------------------------------------------
 
 def tables(repo):
-    ev = parse(repo, 'grpclib/events.py')
-    bases, hooks = hooks_of(ev)
-    targets, sites = [], []
+    bases, hooks, targets, dispatch_classes = hooks_by_value(repo)
+    sites = []
     for rel, cls in USE_FILES:
         tree = parse(repo, rel)
-        targets.append((os.path.basename(rel), cls, dispatch_target(tree, rel, cls)))
-        sites += sites_of(tree, os.path.basename(rel))
+        base = os.path.basename(rel)
+        mine = [d for f, c, d in targets if f == base]
+        names = {h[1] for h in hooks if h[0] in mine}
+        sites += sites_of(tree, base, names, dispatch_classes)
     return bases, hooks, targets, sites
 
 
